@@ -64,7 +64,7 @@ else:
         return Csc(rows)
 
 OVERRIDES = {"armi.nuclearDataIO.cccc.compxs:csc_matrix": "CscStandIn"}
-DIFF = ["powerConvMult", "d1Multiplier", "d1Additive", "d2Additive", "d3Multiplier", "d3Additive"]
+DIFF = ["powerConvMult", "d1Multiplier", "d1Additive", "d2Additive", "d3Multiplier", "d3Additive", "d2Multiplier"]  # the last one got its own entry with fix F114
 
 
 def library(ichi, nfam, a):
